@@ -448,6 +448,13 @@ func c21Parse(src string, quoted bool) (*syntax.Word, *c21PE, string) {
 			}
 		}
 		d.argQuoted = c21WordQuoted(pe.Repl.Orig) || c21WordQuoted(pe.Repl.With)
+		if i := strings.IndexByte(src, '/'); i >= 0 {
+			rest := src[i+1:]
+			if d.all {
+				rest = strings.TrimPrefix(rest, "/")
+			}
+			d.origSrcSlash = strings.HasPrefix(rest, "/")
+		}
 		if pe.Exp != nil {
 			return nil, nil, "parse-shape"
 		}
@@ -1014,7 +1021,7 @@ func c21PatSrc(r *Rand, pat string, slashEsc bool, allowQuote bool) string {
 			sb.WriteRune(rs[i])
 		case c == '/' && slashEsc:
 			sb.WriteString("\\/")
-		case allowQuote && c != '\\' && r.Chance(6):
+		case allowQuote && !strings.Contains(pat, "[") && strings.ContainsRune("*?abA.", c) && r.Chance(8):
 			sb.WriteString(`"` + string(c) + `"`)
 		default:
 			sb.WriteRune(c)
@@ -1658,6 +1665,15 @@ func c21Excluded(cs c21Case, d *c21PE) string {
 		if _, err := pattern.Regexp(p, 0); err != nil {
 			return "c17-pattern-error"
 		}
+		if strings.Contains(p, "[[:") {
+			for _, e := range elems {
+				for _, r := range e {
+					if r >= utf8.RuneSelf {
+						return "c17-class-nonascii" // Go's POSIX classes are ASCII, bash's follow the locale
+					}
+				}
+			}
+		}
 	}
 	if !cs.quoted && ifsNonWs {
 		// field splitting at non-white-space IFS characters is C22's subject (adjacent / leading /
@@ -1687,7 +1703,7 @@ func c21Excluded(cs c21Case, d *c21PE) string {
 	if d.kind == 'R' && d.anchor != 'n' {
 		return "C21-anchored-replace"
 	}
-	if d.kind == 'R' && d.orig == "" && strings.HasPrefix(d.with, "/") {
+	if d.kind == 'R' && d.origSrcSlash {
 		return "C21-replace-leading-slash"
 	}
 	if (remove || caseOp) && d.argQuoted {
@@ -1719,6 +1735,12 @@ func c21Excluded(cs c21Case, d *c21PE) string {
 			}
 			if kind == 'p' {
 				return "indirect-positional-list"
+			}
+			if kind == 'u' && d.name[0] >= '0' && d.name[0] <= '9' {
+				return "C21-indirect-unset-positional"
+			}
+			if val, set := c21ElemValue(cs, d); set && cs.st.vars[val].kind == 'a' {
+				return "C21-indirect-assoc-zero"
 			}
 			if val, set := c21ElemValue(cs, d); set && !c21ValidName(val) {
 				if _, err := strconv.Atoi(val); err != nil || val == "0" {
